@@ -69,7 +69,7 @@ def oracle(ctx, seeds=None):
             continue
         # (1) stage times and final time on a recording RHS, several (t0, dt)
         for k in range(ctx.n(6, 60)):
-            t0 = float(ctx.rng.uniform(0, 3)); dt = float(ctx.rng.uniform(0.01, 1.0))
+            t0 = float(ctx.rng.uniform(0, 3)); dt = float(ctx.rng.uniform(0.01, 1.0)) * (-1.0 if k % 3 == 2 else 1.0)     # also backwards in time
             def run():
                 d = RecDisc([0.3, 0.2, -0.5, 0.1, 0.05], 2)
                 s = cls(FakeMesh(2), d)
@@ -84,11 +84,11 @@ def oracle(ctx, seeds=None):
             times, tend = out
             cs, bsum = abscissae(cls)
             exp = [t0 + c * dt for c in cs]
-            if len(times) != len(exp) or any(abs(a - b) > 1e-12 * (abs(t0) + dt) for a, b in zip(times, exp)):
+            if len(times) != len(exp) or any(abs(a - b) > 1e-12 * (abs(t0) + abs(dt)) for a, b in zip(times, exp)):
                 res.fail(name + ':stage-time', "stage times %r, abscissae give %r (t0=%r dt=%r)" % (times, exp, t0, dt),
                          dict(cls=name, t0=t0, dt=dt, kind='times'))
                 break
-            if abs(tend - (t0 + dt)) > 1e-12 * (abs(t0) + dt):
+            if abs(tend - (t0 + dt)) > 1e-12 * (abs(t0) + abs(dt)):
                 res.fail(name + ':final-time', "time after step %r != t0+dt %r" % (tend, t0 + dt),
                          dict(cls=name, t0=t0, dt=dt, kind='times'))
                 break
@@ -107,6 +107,20 @@ def oracle(ctx, seeds=None):
             res.case((name, 'buffered-rhs', k))
             if not ok:
                 res.fail(name + ':raised', out, dict(cls=name, kind='buffered-rhs')); break
+            def run3():
+                outs = []
+                for view in (False, True):      # R(q) = q, returned as a fresh array / as the very array of the field it was given
+                    f = impl.field.fdata(FakeModel(), FakeMesh(3), [q0.copy()], t=t0)
+                    cls(FakeMesh(3), RecDisc([0.0, 0.0, 1.0, 0.0, 0.0], 3, view=view)).step(f, dt)
+                    outs.append(np.array(f.data[0], dtype=float).copy())
+                return outs
+            ok3, out3 = impl.guarded(run3)
+            if not ok3:
+                res.fail(name + ':raised', out3, dict(cls=name, kind='view-rhs')); break
+            if not np.array_equal(out3[0], out3[1]):
+                res.fail(name + ':rhs-returning-a-view', "one step of x' = x with a right-hand side that returns the state array it was given differs from the step with a fresh array by %g" %
+                         float(np.max(np.abs(out3[0] - out3[1]))), dict(cls=name, kind='view-rhs', q0=list(q0), t0=t0, dt=dt))
+                break
             if not np.array_equal(out[0], out[1]):
                 res.fail(name + ':aliased-stage-slopes', "one step with a right-hand side that reuses its output buffer differs from the step with fresh arrays by %g" %
                          float(np.max(np.abs(out[0] - out[1]))), dict(cls=name, kind='buffered-rhs', c=c, q0=list(q0), t0=t0, dt=dt))
